@@ -5,6 +5,7 @@ import (
 	"net"
 	"net/netip"
 	"reflect"
+	"sync"
 	"time"
 
 	codec "github.com/uhppoted/uhppote-core/encoding/UTO311-L0x"
@@ -297,6 +298,108 @@ func adapterDate(d types.Date) string {
 	return time.Time(d).Format("2006-01-02")
 }
 
+// c05Case: one value of one message type - fill, encode, compare with the reference encoding, decode, compare, then
+// randomise the bytes outside every field and decode again. Safe for concurrent use (r belongs to the caller).
+func c05Case(c *Ctx, r gen.R, mt msgType, zero bool, caseNo int64, zone, phase string) {
+	v := reflect.New(mt.t).Elem()
+	vals := rm.Vals{}
+	fill(r, v, vals, zero)
+	var enc []byte
+	var err error
+	func() {
+		defer func() {
+			if p := recover(); p != nil {
+				err = fmt.Errorf("panic: %v", p)
+			}
+		}()
+		enc, err = codec.Marshal(v.Interface())
+	}()
+	c.Res.Eval(1)
+	if err != nil {
+		c.Res.Violate("C05:"+mt.t.Name()+":encode", fmt.Sprintf("Marshal(%s) failed for an in-domain value: %v", mt.t.Name(), err), map[string]any{"zone": zone, "phase": phase, "values": vals.String()}, caseNo)
+		return
+	}
+	c.Res.DistinctKey(mt.t.Name(), enc)
+	if mt.layout != nil {
+		want := rm.Encode(mt.layout, mt.som, vals)
+		if string(want) != string(enc) {
+			diff := diffOffsets(want, enc)
+			key := "C05:" + mt.t.Name() + ":encoding:" + fieldAt(mt.layout, diff[0])
+			c.Res.Violate(key, fmt.Sprintf("Marshal(%s) differs from the protocol encoding at offsets %v (%s)", mt.t.Name(), diff, fieldAt(mt.layout, diff[0])),
+				map[string]any{"zone": zone, "phase": phase, "values": vals.String(), "expected": wk.Hex(want), "got": wk.Hex(enc)}, caseNo)
+			return
+		}
+	}
+	before := map[string]string{}
+	canon(v, before)
+
+	decode := func(b []byte) (map[string]string, error) {
+		w := reflect.New(mt.t)
+		var derr error
+		func() {
+			defer func() {
+				if p := recover(); p != nil {
+					derr = fmt.Errorf("panic: %v", p)
+				}
+			}()
+			derr = codec.Unmarshal(b, w.Interface())
+		}()
+		if derr != nil {
+			return nil, derr
+		}
+		m := map[string]string{}
+		canon(w.Elem(), m)
+		return m, nil
+	}
+	after, derr := decode(enc)
+	if derr != nil {
+		c.Res.Violate("C05:"+mt.t.Name()+":decode", fmt.Sprintf("Unmarshal(Marshal(%s)) failed: %v", mt.t.Name(), derr), map[string]any{"zone": zone, "phase": phase, "values": vals.String(), "bytes": wk.Hex(enc)}, caseNo)
+		return
+	}
+	bad := ""
+	for k, b := range before {
+		if after[k] != b {
+			bad = k
+			key := "C05:" + mt.t.Name() + ":roundtrip:" + k
+			if b == "datetime:zero" {
+				key = "C05:zero-datetime"
+			}
+			c.Res.Violate(key, fmt.Sprintf("%s.%s: decoding the encoding of %s yields %s (zone %s)", mt.t.Name(), k, b, after[k], zone),
+				map[string]any{"zone": zone, "phase": phase, "type": mt.t.Name(), "field": k, "before": b, "after": after[k], "bytes": wk.Hex(enc)}, caseNo)
+			break
+		}
+	}
+	if bad != "" {
+		return
+	}
+	if caseNo%6007 == 0 {
+		c.Res.Sample(map[string]any{"type": mt.t.Name(), "zone": zone, "bytes": wk.Hex(enc), "decoded": fmt.Sprint(after)})
+	}
+	// bytes that belong to no field must not matter
+	if mt.layout != nil {
+		cov := mt.layout.Covered()
+		noisy := append([]byte{}, enc...)
+		for k := 2; k < 64; k++ {
+			if !cov[k] {
+				noisy[k] = byte(r.Pick(256))
+			}
+		}
+		again, nerr := decode(noisy)
+		c.Res.Eval(1)
+		if nerr != nil {
+			c.Res.Violate("C05:"+mt.t.Name()+":unused-bytes", fmt.Sprintf("%s: decode fails when bytes outside every field change: %v", mt.t.Name(), nerr), map[string]any{"bytes": wk.Hex(noisy)}, caseNo)
+		} else {
+			for k, b := range after {
+				if again[k] != b {
+					c.Res.Violate("C05:"+mt.t.Name()+":unused-bytes", fmt.Sprintf("%s.%s changes from %s to %s when only bytes outside every field change", mt.t.Name(), k, b, again[k]),
+						map[string]any{"bytes": wk.Hex(noisy), "clean": wk.Hex(enc)}, caseNo)
+					break
+				}
+			}
+		}
+	}
+}
+
 func c05(c *Ctx) {
 	c.Res.Rule = "for each of the repository's message structs (obtained through its own dispatchers) every field is filled from in-domain generators, encoded, checked against the reference encoding, decoded into a fresh value and compared field by field in canonical form; then every byte that belongs to no field is randomised and the decode must not change; dispatchers are probed with all 256 function codes x lengths 0..128 x protocol ids; the process time zone is that of the batch (TZ); distinct = distinct (type, encoded bytes) pairs + dispatcher cases"
 	r := c.Rng("main")
@@ -310,108 +413,54 @@ func c05(c *Ctx) {
 		N = c.N(4000, 60000)
 	}
 
-	for _, mt := range typesList {
-		for i := 0; i < N; i++ {
-			caseNo++
-			v := reflect.New(mt.t).Elem()
-			vals := rm.Vals{}
-			zero := i == 0 // first case per type: the zero 'no value' dates
-			fill(r, v, vals, zero)
-			var enc []byte
-			var err error
-			func() {
-				defer func() {
-					if p := recover(); p != nil {
-						err = fmt.Errorf("panic: %v", p)
+	// ---- first use of every message type, by several goroutines at the same moment (a fresh process per batch: whatever the
+	// codec or the value types cache on first use is built under contention here), then the sequential sweep, then a
+	// sustained concurrent phase on random types
+	{
+		G := 8
+		for ti, mt := range typesList {
+			var wg sync.WaitGroup
+			gate := make(chan struct{})
+			for g := 0; g < G; g++ {
+				wg.Add(1)
+				go func(g int) {
+					defer wg.Done()
+					rr := gen.New(c.Seed, fmt.Sprintf("C05/first-use/%d/%d", ti, g), c.Batch)
+					<-gate
+					for k := 0; k < 3; k++ {
+						c05Case(c, rr, mt, false, int64(-1000-ti), zone, "concurrent-first-use")
 					}
-				}()
-				enc, err = codec.Marshal(v.Interface())
-			}()
-			c.Res.Eval(1)
-			if err != nil {
-				c.Res.Violate("C05:"+mt.t.Name()+":encode", fmt.Sprintf("Marshal(%s) failed for an in-domain value: %v", mt.t.Name(), err), map[string]any{"zone": zone, "values": vals.String()}, caseNo)
-				continue
+				}(g)
 			}
-			c.Res.DistinctKey(mt.t.Name(), enc)
-			if mt.layout != nil {
-				want := rm.Encode(mt.layout, mt.som, vals)
-				if string(want) != string(enc) {
-					diff := diffOffsets(want, enc)
-					key := "C05:" + mt.t.Name() + ":encoding:" + fieldAt(mt.layout, diff[0])
-					c.Res.Violate(key, fmt.Sprintf("Marshal(%s) differs from the protocol encoding at offsets %v (%s)", mt.t.Name(), diff, fieldAt(mt.layout, diff[0])),
-						map[string]any{"zone": zone, "values": vals.String(), "expected": wk.Hex(want), "got": wk.Hex(enc)}, caseNo)
-					continue
-				}
-			}
-			before := map[string]string{}
-			canon(v, before)
-
-			decode := func(b []byte) (map[string]string, error) {
-				w := reflect.New(mt.t)
-				var derr error
-				func() {
-					defer func() {
-						if p := recover(); p != nil {
-							derr = fmt.Errorf("panic: %v", p)
-						}
-					}()
-					derr = codec.Unmarshal(b, w.Interface())
-				}()
-				if derr != nil {
-					return nil, derr
-				}
-				m := map[string]string{}
-				canon(w.Elem(), m)
-				return m, nil
-			}
-			after, derr := decode(enc)
-			if derr != nil {
-				c.Res.Violate("C05:"+mt.t.Name()+":decode", fmt.Sprintf("Unmarshal(Marshal(%s)) failed: %v", mt.t.Name(), derr), map[string]any{"zone": zone, "values": vals.String(), "bytes": wk.Hex(enc)}, caseNo)
-				continue
-			}
-			bad := ""
-			for k, b := range before {
-				if after[k] != b {
-					bad = k
-					key := "C05:" + mt.t.Name() + ":roundtrip:" + k
-					if b == "datetime:zero" {
-						key = "C05:zero-datetime"
-					}
-					c.Res.Violate(key, fmt.Sprintf("%s.%s: decoding the encoding of %s yields %s (zone %s)", mt.t.Name(), k, b, after[k], zone),
-						map[string]any{"zone": zone, "type": mt.t.Name(), "field": k, "before": b, "after": after[k], "bytes": wk.Hex(enc)}, caseNo)
-					break
-				}
-			}
-			if bad != "" {
-				continue
-			}
-			if caseNo%6007 == 0 {
-				c.Res.Sample(map[string]any{"type": mt.t.Name(), "zone": zone, "bytes": wk.Hex(enc), "decoded": fmt.Sprint(after)})
-			}
-			// bytes that belong to no field must not matter
-			if mt.layout != nil {
-				cov := mt.layout.Covered()
-				noisy := append([]byte{}, enc...)
-				for k := 2; k < 64; k++ {
-					if !cov[k] {
-						noisy[k] = byte(r.Pick(256))
-					}
-				}
-				again, nerr := decode(noisy)
-				c.Res.Eval(1)
-				if nerr != nil {
-					c.Res.Violate("C05:"+mt.t.Name()+":unused-bytes", fmt.Sprintf("%s: decode fails when bytes outside every field change: %v", mt.t.Name(), nerr), map[string]any{"bytes": wk.Hex(noisy)}, caseNo)
-				} else {
-					for k, b := range after {
-						if again[k] != b {
-							c.Res.Violate("C05:"+mt.t.Name()+":unused-bytes", fmt.Sprintf("%s.%s changes from %s to %s when only bytes outside every field change", mt.t.Name(), k, b, again[k]),
-								map[string]any{"bytes": wk.Hex(noisy), "clean": wk.Hex(enc)}, caseNo)
-							break
-						}
-					}
-				}
+			close(gate)
+			wg.Wait()
+		}
+		c.Res.Count("concurrent-first-use:types x goroutines", int64(len(typesList)*G))
+	}
+	if c.Mode != "race" {
+		for _, mt := range typesList {
+			for i := 0; i < N; i++ {
+				caseNo++
+				c05Case(c, r, mt, i == 0, caseNo, zone, "sequential")
 			}
 		}
+	}
+	{
+		G := 8
+		per := N * len(typesList) / 4 / G
+		var wg sync.WaitGroup
+		for g := 0; g < G; g++ {
+			wg.Add(1)
+			go func(g int) {
+				defer wg.Done()
+				rr := gen.New(c.Seed, fmt.Sprintf("C05/concurrent/%d", g), c.Batch)
+				for k := 0; k < per; k++ {
+					c05Case(c, rr, typesList[rr.Pick(len(typesList))], rr.Chance(0.02), int64(-2000-g), zone, "concurrent")
+				}
+			}(g)
+		}
+		wg.Wait()
+		c.Res.Count("concurrent-phase:cases", int64(G*per))
 	}
 
 	// ---- dispatchers (time zone independent: first batch only, plus every batch in utc-deep mode)
@@ -462,8 +511,8 @@ func c05(c *Ctx) {
 							codes = repCodes
 						}
 						name, registered := codes[byte(code)]
-						if som == 0x19 && code == 0x20 {
-							continue // status/event framing of v6.62 firmware: don't-care for the dispatchers
+						if som == 0x19 && code == 0x20 && side == 1 {
+							continue // status/event framing of v6.62 firmware: don't-care for the response dispatcher (requests are never framed 0x19)
 						}
 						shouldAccept := n == 64 && som == 0x17 && registered
 						sideName := []string{"UnmarshalRequest", "UnmarshalResponse"}[side]
